@@ -196,7 +196,7 @@ class Model:
         pass
 
     def ev_D(self, ev):
-        if ev.get('live', 0) != 0:
+        if ev.get('live', 0) != 0 and ev.get('tables', 0) == 0:
             self.v('leak', ev, 'after yylex_destroy: %d allocations (%d bytes) still live' % (ev['live'], ev.get('bytes', 0)))
         # fresh scanner
         self.start = 0
